@@ -5,7 +5,7 @@ use super::verif_stream_dispatch__vs::*;
 use super::*;
 use std::task::Context;
 
-// @verif id=VS.ack props=C07,C04,C11 tier=quick timeout=900
+// @verif id=VS.ack props=C07,C04,C11,C09 tier=quick timeout=900
 // @functions VirtualSocket::maybe_send_ack, VirtualSocket::send_ack, VirtualSocket::send_control_packet, VirtualSocket::outgoing_header, VirtualSocket::rx_window, VirtualSocket::immediate_ack_to_transmit, VirtualSocket::should_send_window_update, VirtualSocket::ack_to_transmit, UtpHeader::serialize, UtpSocket::try_poll_send_to
 // @bounds established socket (MSS 16, receive buffer 48); consumed_but_unacked_bytes ANY usize; last consumed number 1, last ACK sent 0..=3 behind it (i.e. 1, 0, 65535, 65534: across the 16-bit wrap); last advertised window zero or not; delayed-ACK timer idle or armed anywhere within +-60 ms of now; transport ready or blocked
 // @asserts >= 2*MSS unacknowledged bytes, a re-opened (or newly closed) window, or an expired delayed-ACK timer with something to acknowledge => exactly one ST_STATE goes out NOW carrying ack_nr == last consumed, the honest window, our connection id, version 1; bookkeeping reset; otherwise nothing is sent and (if bytes are pending) the delayed-ACK timer is armed no later than now + 40 ms and never postponed; nothing pending => silence; blocked transport => nothing recorded, nothing reset
